@@ -35,14 +35,18 @@ theorem validateGpType_ok {gp : GPType} {n nl : Nat} :
   all_goals (split_ifs <;> simp_all <;> omega)
 
 theorem validateRankParams_ok {gp : GPType} {n nl : Nat} {rank : RankV} :
-    validateRankParams gp n rank nl = .ok () ↔ (gp.isNystroem ↔ rankIndicatesFull gp n rank nl = false) := by
-  cases gp <;> cases h : rankIndicatesFull _ n rank nl <;> simp [validateRankParams, h, GPType.isNystroem]
+    validateRankParams gp n rank nl = .ok () ↔
+      rank.isNegative = false ∧ (gp.isNystroem ↔ rankIndicatesFull gp n rank nl = false) := by
+  unfold validateRankParams
+  cases hneg : rank.isNegative
+  · cases gp <;> cases h : rankIndicatesFull _ n rank nl <;> simp [h, GPType.isNystroem]
+  · simp
 
 theorem validateParams_ok {rank : RankV} {gp : GPType} {n nl : Nat} {lm : Option Nat} :
     validateParams rank gp n nl lm = .ok () ↔
       (∀ m, lm = some m → nl = m) ∧
       ((gp.isFullFamily → nl = 0 ∨ n ≤ nl) ∧ (gp.isSparseFamily → 0 < nl ∧ nl < n) ∧ (gp = .fixed → nl ≠ 0)) ∧
-      (gp.isNystroem ↔ rankIndicatesFull gp n rank nl = false) := by
+      (rank.isNegative = false ∧ (gp.isNystroem ↔ rankIndicatesFull gp n rank nl = false)) := by
   rw [← validateLandmarkParams_ok, ← validateGpType_ok, ← validateRankParams_ok]
   unfold validateParams
   cases h1 : validateLandmarkParams nl lm with
@@ -231,6 +235,38 @@ theorem resolveDensityLike_internal {c : Config} (h : resolveDensityLike c = .in
           simp only [] at h
           split_ifs at h
 
+/-! ### the inducing points of the sparse and fixed types -/
+
+/-- For a validated sparse or fixed type the landmark step always yields landmarks: the ones given,
+    else all `n` cells (`fixed` with `n_landmarks ≥ n`), else `n_landmarks` k-means centres. -/
+theorem inducing_points {c : Config} {r : Resolved} (hp : prepare c = .ok r) {lm : Option Nat}
+    (hl : landmarksStep c.landmarks r.gp c.n r.nl = .ok lm)
+    (hg : r.gp.isSparseFamily ∨ r.gp = .fixed) :
+    lm = some (c.landmarks.getD (if c.n ≤ r.nl then c.n else r.nl)) ∧
+    (r.gp.isSparseFamily → lm = some r.nl) ∧ 0 < r.nl := by
+  obtain ⟨_, _, _, _, _, _, _, _, _, hv⟩ := prepare_ok hp
+  rw [validateParams_ok] at hv
+  obtain ⟨hlm, ⟨_, hsp, hfx⟩, _⟩ := hv
+  have hpos : 0 < r.nl := by
+    rcases hg with hg | hg
+    · exact (hsp hg).1
+    · exact Nat.pos_of_ne_zero (hfx hg)
+  have hlt : r.gp.isSparseFamily → r.nl < c.n := fun h => (hsp h).2
+  have hnf : r.gp.isSparseFamily → r.gp ≠ .fixed := by
+    intro h hf; rw [hf] at h; exact h
+  rcases landmarksStep_ok hl with ⟨m', hu, hm'⟩ | ⟨hu, hcl⟩
+  · have := hlm m' hu
+    refine ⟨by rw [hm', hu]; rfl, fun _ => by rw [hm', this], hpos⟩
+  · rw [hu]
+    simp only [Option.getD_none]
+    rcases computeLandmarks_ok hcl with ⟨h0, _⟩ | ⟨_, h2, hfix, hn'⟩ | ⟨_, h2, hnfix, _⟩ | ⟨_, h2, hn'⟩
+    · omega
+    · refine ⟨by rw [hn', if_pos h2], fun hs => absurd hfix (hnf hs), hpos⟩
+    · rcases hg with hg | hg
+      · have := hlt hg; omega
+      · exact absurd hg hnfix
+    · refine ⟨by rw [hn', if_neg (by omega)], fun _ => hn', hpos⟩
+
 /-! ### dispatch on the estimator -/
 
 theorem resolve_densityLike {c : Config} (h : c.est ≠ .function) : resolve c = resolveDensityLike c := by
@@ -252,23 +288,92 @@ theorem nystroemCols_le (rank : RankV) (bound kept : Nat) (hb : 1 ≤ bound) :
 
 /-! ### function estimator -/
 
-/-- The noise description fits the number of conditioning points (`n` cells without landmarks,
-    `m` landmarks otherwise). -/
-def NoiseFits (n : Nat) (lm : Option Nat) (withUnc : Bool) (sigma : SigmaForm) : Prop :=
-  match lm, sigma with
-  | none, .matN _ => False
-  | none, _ => True
-  | some m, .scalar => withUnc = true → m = n
-  | some m, .vecN => m = n
-  | some m, .matN _ => m ≠ n
-  | some _, .negative => True
+theorem functionPredictor_ne_internal (gp : GPType) (n : Nat) (lm : Option Nat) (s : SigmaForm) :
+    functionPredictor gp n lm s ≠ .internal := by
+  unfold functionPredictor
+  split_ifs
+  · simp
+  · cases lm <;> cases s <;> simp <;> split_ifs <;> simp
 
-theorem functionPredictor_internal_iff {gp : GPType} {n : Nat} {lm : Option Nat} {u : Bool}
-    {s : SigmaForm} : functionPredictor gp n lm u s = .internal ↔ ¬ NoiseFits n lm u s := by
-  cases lm <;> cases s <;> simp [functionPredictor, NoiseFits]
+theorem functionPredictor_ok {gp gp' : GPType} {n rows cols : Nat} {lm : Option Nat} {s : SigmaForm}
+    {cls : PredFamily} (h : functionPredictor gp n lm s = .ok gp' rows cols cls) :
+    gp' = gp ∧ rows = n ∧ cls = (if gp = .full ∨ gp = .fullNystroem then PredFamily.full
+        else if lm.isSome = true then PredFamily.landmarks else PredFamily.full) ∧
+    cols = (if gp = .full ∨ gp = .fullNystroem then n else lm.getD n) := by
+  unfold functionPredictor at h
+  by_cases hg : gp = .full ∨ gp = .fullNystroem
+  · rw [if_pos hg] at h
+    simp only [Outcome.ok.injEq] at h
+    obtain ⟨h1, h2, h3, h4⟩ := h
+    simp [hg, h1.symm, h2.symm, h3.symm, h4.symm]
+  · rw [if_neg hg] at h
+    cases lm with
+    | none =>
+      simp only [Outcome.ok.injEq] at h
+      obtain ⟨h1, h2, h3, h4⟩ := h
+      simp [hg, h1.symm, h2.symm, h3.symm, h4.symm]
+    | some m =>
+      cases s <;> simp only [] at h
+      all_goals (first
+        | (simp only [Outcome.ok.injEq] at h
+           obtain ⟨h1, h2, h3, h4⟩ := h
+           simp [hg, h1.symm, h2.symm, h3.symm, h4.symm])
+        | (split_ifs at h
+           simp only [Outcome.ok.injEq] at h
+           obtain ⟨h1, h2, h3, h4⟩ := h
+           simp [hg, h1.symm, h2.symm, h3.symm, h4.symm]))
 
-theorem resolveFunction_internal {c : Config} (h : resolveFunction c = .internal) :
-    ∃ gp lm, functionPredictor gp c.n lm c.withUnc c.sigma = .internal := by
+theorem effConfig_function {c : Config} (h : c.est = .function) :
+    effConfig c = { c with rank := .flt 1 } := by
+  unfold effConfig; rw [if_pos h]
+
+theorem effConfig_other {c : Config} (h : c.est ≠ .function) : effConfig c = c := by
+  unfold effConfig; rw [if_neg h]
+
+theorem effConfig_n (c : Config) : (effConfig c).n = c.n := by
+  unfold effConfig; split_ifs <;> rfl
+
+theorem effConfig_landmarks (c : Config) : (effConfig c).landmarks = c.landmarks := by
+  unfold effConfig; split_ifs <;> rfl
+
+theorem effConfig_gpType (c : Config) : (effConfig c).gpType = c.gpType := by
+  unfold effConfig; split_ifs <;> rfl
+
+theorem effConfig_nLandmarks (c : Config) : (effConfig c).nLandmarks = c.nLandmarks := by
+  unfold effConfig; split_ifs <;> rfl
+
+theorem resolveFunction_ne_internal (c : Config) : resolveFunction c ≠ .internal := by
+  unfold resolveFunction
+  cases h1 : initNLandmarks c.nLandmarks with
+  | error e => simp
+  | ok nlU =>
+    cases h2 : initGpType c.gpType with
+    | error e => simp
+    | ok gpU =>
+      simp only []
+      by_cases hs : c.sigma = .negative ∨ c.sigma.isMat = true
+      · rw [if_pos hs]; simp
+      · rw [if_neg hs]
+        by_cases hn : gpU = some .fullNystroem ∨ gpU = some .sparseNystroem
+        · rw [if_pos hn]; simp
+        · rw [if_neg hn]
+          cases hp : prepare { c with rank := .flt 1 } with
+          | error e => simp
+          | ok r =>
+            simp only []
+            by_cases h2n : c.n < 2
+            · rw [if_pos h2n]; simp
+            · rw [if_neg h2n]
+              cases hl : landmarksStep c.landmarks r.gp c.n r.nl with
+              | error e => simp
+              | ok lm => exact functionPredictor_ne_internal _ _ _ _
+
+theorem resolveFunction_ok {c : Config} {gp : GPType} {rows cols : Nat} {cls : PredFamily}
+    (h : resolveFunction c = .ok gp rows cols cls) :
+    ∃ r lm, prepare { c with rank := .flt 1 } = .ok r ∧ 2 ≤ c.n ∧
+      landmarksStep c.landmarks r.gp c.n r.nl = .ok lm ∧
+      functionPredictor r.gp c.n lm c.sigma = .ok gp rows cols cls ∧
+      ¬ r.gp.isNystroem := by
   unfold resolveFunction at h
   cases h1 : initNLandmarks c.nLandmarks with
   | error e => rw [h1] at h; simp at h
@@ -278,9 +383,37 @@ theorem resolveFunction_internal {c : Config} (h : resolveFunction c = .internal
     | ok gpU =>
       rw [h1, h2] at h
       simp only [] at h
-      split_ifs at h
-      split at h
-      · simp at h
-      · exact ⟨_, _, h⟩
+      by_cases hs : c.sigma = .negative ∨ c.sigma.isMat = true
+      · rw [if_pos hs] at h; simp at h
+      · rw [if_neg hs] at h
+        by_cases hn : gpU = some .fullNystroem ∨ gpU = some .sparseNystroem
+        · rw [if_pos hn] at h; simp at h
+        · rw [if_neg hn] at h
+          cases hp : prepare { c with rank := .flt 1 } with
+          | error e => rw [hp] at h; simp at h
+          | ok r =>
+            rw [hp] at h
+            simp only [] at h
+            by_cases h2n : c.n < 2
+            · rw [if_pos h2n] at h; simp at h
+            · rw [if_neg h2n] at h
+              cases hl : landmarksStep c.landmarks r.gp c.n r.nl with
+              | error e => rw [hl] at h; simp at h
+              | ok lm =>
+                rw [hl] at h
+                simp only [] at h
+                refine ⟨r, lm, rfl, by omega, hl, h, ?_⟩
+                -- rank 1.0 indicates full rank, so a validated type is not a Nyström type
+                obtain ⟨_, rkU, _, _, hro, _, _, hrk, _, hv⟩ := prepare_ok hp
+                rw [validateParams_ok] at hv
+                intro hN
+                have hf := hv.2.2.2.mp hN
+                have hr1 : r.rank = .flt 1 := by
+                  rw [hrk]
+                  simp only [validateRankOpt, Except.ok.injEq] at hro
+                  subst hro
+                  rfl
+                rw [hr1] at hf
+                simp [rankIndicatesFull] at hf
 
 end Mellon
